@@ -243,6 +243,20 @@ var Presets = map[string]*Config{
 		}
 		return &Config{Lib: lib, Globals: map[string]Global{"Separator": {Lean: "47", T: TInt}}, Structs: map[string]*Struct{}, Fuel: map[string]string{}}
 	}(),
+	// the index-entry parser cut out of (*Cache).get of cache/cache.go (harness/cmd/cache/fact.go: cacheParseSource).
+	// LIBRARY MEANINGS (trusted, correspondence-tested; GIV/GoLibCache.lean): hex.Decode(buf[:], src) = the loop of
+	// encoding/hex over the model's fromHexChar (what it stores, how many bytes, whether it fails; a panic when the
+	// array is too short); strconv.ParseInt(s, 10, 64) = the model's parseInt 10 64 (value and nil, or 0 and an error).
+	"cacheparse": func() *Config {
+		lib := map[string]LibFn{
+			"strconv.ParseInt": {Lean: "GoLib.strconvParseInt10_64", Ret: &Type{K: KTuple, Tup: []*Type{TInt, TError}}, FixedArgs: []string{"", "10", "64"}},
+		}
+		return &Config{Lib: lib, Globals: map[string]Global{}, Structs: map[string]*Struct{}, Fuel: map[string]string{},
+			ByteArrays:   true,
+			ArrayFill:    map[string]LibFn{"hex.Decode": {Lean: "GoLib.hexDecodeInto", Ret: &Type{K: KTuple, Tup: []*Type{TInt, TError}}}},
+			OpaqueErrors: true,
+		}
+	}(),
 	"proxy": func() *Config {
 		return &Config{Lib: bytesLib(), Globals: map[string]Global{}, Structs: map[string]*Struct{}, Fuel: map[string]string{}}
 	}(),
